@@ -16,6 +16,7 @@ from ..prog import AnalysisError, ClassInfo, FuncInfo, dotted, unparse
 from ..absint import to_poly
 from ..match import pretty
 from . import gnutil as G
+from .. import sem
 
 PROP = "C07"
 ROUTER = "geonet.router.Router"
@@ -246,42 +247,198 @@ def size_control(ctx, handlers):
     ctx.floor("C07.size-control", 9)
 
 
+def _xfacts(st) -> set:
+    """Canonical atoms of the guard facts of a state, locals expanded."""
+    out = set()
+    for f in st.facts:
+        if f.kind == "cond":
+            out.update(sem.atoms(f.xnode, f.pol))
+    return out
+
+
+def _attr(v: ast.AST, name: str) -> ast.Attribute:
+    return ast.Attribute(value=v, attr=name, ctx=ast.Load())
+
+
+def _nonneg_atoms(x: ast.AST) -> set:
+    """Atoms of `x >= 0` (integer or float zero)."""
+    return {a for z in (0, 0.0) for a in sem.atoms(ast.Compare(left=x, ops=[ast.GtE()], comparators=[ast.Constant(z)]), True)}
+
+
+def _neg_atoms(x: ast.AST) -> set:
+    return {a for z in (0, 0.0) for a in sem.atoms(ast.Compare(left=x, ops=[ast.Lt()], comparators=[ast.Constant(z)]), True)}
+
+
+class _FCall:
+    """One call of the geometric function: arguments bound to the parameter names and expanded at the call."""
+
+    def __init__(self, ctx, fi, fl, call):
+        P = ctx.prog
+        F = P.func(f"{ROUTER}.gn_geometric_function_f")
+        self.call, self.fi, self.fl = call, fi, fl
+        self.st = fl.state_at(call)
+        amap = G.bind_args(F, call) or {}
+        names = F.params[1:5]
+        if len(names) != 4:
+            raise AnalysisError("C07: gn_geometric_function_f no longer takes (shape, area, lat, lon)")
+        self.raw = [amap.get(n) for n in names]
+        self.x = [fl.expand(a, self.st) if a is not None else None for a in self.raw]
+        self.xcall = fl.expand(call, self.st)
+
+    @property
+    def complete(self):
+        return all(a is not None for a in self.x)
+
+    def point_owner(self):
+        """V when the point is (V.latitude, V.longitude) for one expression V (as written), else None."""
+        la, lo = self.raw[2], self.raw[3]
+        if isinstance(la, ast.Attribute) and isinstance(lo, ast.Attribute) and la.attr == "latitude" and lo.attr == "longitude" \
+                and sem.cx(la.value) == sem.cx(lo.value):
+            return la.value
+        return None
+
+    def is_ego(self):
+        v = self.point_owner()
+        return v is not None and sem.cx(self.fl.expand(v, self.st)) == "self.ego_position_vector"
+
+
+def _f_calls(ctx, fi, fl) -> list:
+    P = ctx.prog
+    out = []
+    for c in P.calls_in(fi):
+        if any(isinstance(t, FuncInfo) and t.qual.endswith(".Router.gn_geometric_function_f")
+               for t in P.call_targets(fi, c, count=False)):
+            fc = _FCall(ctx, fi, fl, c)
+            if fc.complete:
+                out.append(fc)
+    return out
+
+
+def _is_table_pv_of(ctx, fi, fl, st, v: ast.AST, addr_cx: set) -> bool:
+    """Every non-None value of `v` is <location table>.get_entry(<addr>).position_vector for an addr in addr_cx."""
+    P = ctx.prog
+    alts = [a for a in fl.alternatives(v, st) if not (isinstance(a, ast.Constant) and a.value is None)]
+    if not alts:
+        return False
+    for a in alts:
+        if not (isinstance(a, ast.Attribute) and a.attr == "position_vector" and isinstance(a.value, ast.Call)
+                and isinstance(a.value.func, ast.Attribute) and a.value.func.attr == "get_entry"
+                and sem.cx(a.value.func.value) == "self.location_table" and len(a.value.args) == 1 and not a.value.keywords
+                and sem.cx(a.value.args[0]) in addr_cx):
+            return False
+    return True
+
+
+def _selection_outcome(ctx, sel: FuncInfo, facts) -> tuple:
+    """(outcomes the state is certainly restricted to, whether any guard mentions the selection at all)."""
+    P = ctx.prog
+    allowed, mentions = set(), False
+    for f in facts:
+        if f.kind != "cond":
+            continue
+        has = any(isinstance(n, ast.Call) and isinstance(n.func, ast.Attribute) and n.func.attr == sel.name
+                  for n in ast.walk(f.xnode))
+        mentions = mentions or has
+        if not (has and f.pol and isinstance(f.xnode, ast.Compare) and len(f.xnode.ops) == 1 and isinstance(f.xnode.ops[0], ast.Eq)):
+            continue
+        for a, b in ((f.xnode.left, f.xnode.comparators[0]), (f.xnode.comparators[0], f.xnode.left)):
+            if isinstance(a, ast.Call) and isinstance(a.func, ast.Attribute) and a.func.attr == sel.name and dotted(b):
+                parts = dotted(b).split(".")
+                if len(parts) >= 2 and parts[-2] == "GNForwardingAlgorithmResponse":
+                    allowed.add(parts[-1])
+    return allowed, mentions
+
+
+def _later_sibling_top(fl, stmt: ast.AST, target: ast.AST):
+    """The outermost statement T containing `stmt` such that `target` lies in a LATER statement of T's block
+    (so every path to `target` first runs through T's position); None when there is none."""
+    cur = stmt
+    while cur is not None and id(cur) in fl.parent:
+        par = fl.parent[id(cur)]
+        for _, val in ast.iter_fields(par):
+            if isinstance(val, list) and any(x is cur for x in val):
+                idx = [i for i, x in enumerate(val) if x is cur][0]
+                for later in val[idx + 1:]:
+                    if any(n is target for n in ast.walk(later)):
+                        return cur
+        if isinstance(par, (ast.FunctionDef, ast.AsyncFunctionDef)):
+            return None
+        cur = par
+    return None
+
+
 def annex_d(ctx, handlers):
     P = ctx.prog
     fi = P.func(f"{ROUTER}.gn_forwarding_algorithm_selection")
     fl = ctx.flows.get(fi)
-    FEGO = r"self\.gn_geometric_function_f\(request\.packet_transport_type\.header_subtype,request\.area,self\.ego_position_vector\.latitude,self\.ego_position_vector\.longitude\)"
+    if len(fi.params) < 3:
+        raise AnalysisError("C07: gn_forwarding_algorithm_selection no longer takes (request, sender address)")
+    req, snd = fi.params[1], fi.params[2]
+    fcs = _f_calls(ctx, fi, fl)
+    want_shape, want_area = f"{req}.packet_transport_type.header_subtype", f"{req}.area"
+    egos = [c for c in fcs if c.is_ego()]
+    senders = [c for c in fcs if not c.is_ego()]
+    ok_ego = len(egos) == 1 and sem.cx(egos[0].x[0]) == want_shape and sem.cx(egos[0].x[1]) == want_area
+    ctx.ob("C07.annex-d", fi.short(), "F-ego-arguments", ok_ego,
+           "F(ego) = F(request's shape, request's area, ego latitude, ego longitude)" if ok_ego else
+           f"the selection does not evaluate F(request shape, request area, ego lat, ego lon) exactly once "
+           f"({[pretty(unparse(c.xcall))[:90] for c in egos]})", fi.loc)
+    ok_se, why_se = False, "no evaluation of F at the sender's position"
+    if len(senders) == 1:
+        c = senders[0]
+        v = c.point_owner()
+        if v is None:
+            why_se = (f"F(sender) is called with point (`{pretty(unparse(c.x[2]))[:50]}`, `{pretty(unparse(c.x[3]))[:50]}`): must be "
+                      "(latitude, longitude) of the sender's position vector, in this order")
+        elif not (sem.cx(c.x[0]) == want_shape and sem.cx(c.x[1]) == want_area):
+            why_se = "F(sender) is not evaluated on the request's shape and area"
+        elif not _is_table_pv_of(ctx, fi, fl, c.st, v, {snd}):
+            why_se = f"`{unparse(v)}` is not the location-table position vector of the sender address `{snd}`"
+        else:
+            ok_se, why_se = True, "F(sender) = F(request's shape, request's area, sender PV latitude, sender PV longitude)"
+    ctx.ob("C07.annex-d", fi.short(), "F-sender-arguments", ok_se, why_se, f"{fi.module.rel}:{senders[0].call.lineno}" if senders else fi.loc)
+    fego = egos[0].xcall if egos else ast.Constant(None)
+    inside_a, outside_a = _nonneg_atoms(fego), _neg_atoms(fego)
     seen = set()
     for k, s, st in fl.exits:
         if k != "return":
             continue
-        v = (dotted(s.value) or "").split(".")[-1]
-        conds = {norm(pretty(f.xkey)): f.pol for f in st.facts if f.kind == "cond"}
-        inside = any(p and re.fullmatch(FEGO + r">=0(\.0)?", c) for c, p in conds.items())
-        outside = any(p and re.fullmatch(r"0(\.0)?>" + FEGO, c) for c, p in conds.items())
+        r = P.resolve_expr_entity(fi.module, s.value) if s.value is not None else None
+        v = r[2] if isinstance(r, tuple) and r[0] == "enum" and r[1].name == "GNForwardingAlgorithmResponse" else "?"
+        facts = _xfacts(st)
+        inside, outside = bool(facts & inside_a), bool(facts & outside_a)
         seen.add(v)
         loc = f"{fi.module.rel}:{s.lineno}"
         if v == "AREA_FORWARDING":
             ctx.ob("C07.annex-d", fi.short(), "AREA_FORWARDING", inside, "AREA forwarding exactly when F(ego) >= 0", loc)
         elif v == "DISCARTED":
-            se = [c for c, p in conds.items() if p and "gn_geometric_function_f(" in c and ".latitude" in c and c.endswith(">=0")
-                  and "ego_position_vector" not in c]
-            pai = any(p and c.endswith(".pai") for c, p in conds.items()) or any(
-                (not p) and "isNone" in c for c, p in conds.items())
-            pai_fact = any(c.endswith(".pai") and p for c, p in conds.items()) or any(
-                p and "isnotNoneand" in c and c.endswith(".pai") for c, p in conds.items())
-            ctx.ob("C07.annex-d", fi.short(), "DISCARD", outside and bool(se) and pai_fact,
-                   "DISCARD only when ego is outside, the sender's position is known and accurate (PAI) and the sender is inside "
-                   f"(F(sender) >= 0) [outside={outside}, sender-inside={bool(se)}, pai={pai_fact}]", loc)
+            se_in = pai = only = False
+            extra = set()
+            if ok_se:
+                c = senders[0]
+                vx = fl.expand(c.point_owner(), c.st)
+                se_in = bool(facts & _nonneg_atoms(c.xcall))
+                pai = bool(facts & set(sem.atoms(_attr(vx, "pai"), True)))
+                allowed = _nonneg_atoms(c.xcall) | set(sem.atoms(_attr(vx, "pai"), True)) | outside_a
+                for a in [vx] + fl.alternatives(c.point_owner(), c.st) + [ast.Name(id=snd, ctx=ast.Load())]:
+                    allowed |= set(sem.atoms(ast.Compare(left=a, ops=[ast.IsNot()], comparators=[ast.Constant(None)]), True))
+                    if isinstance(a, ast.Attribute):
+                        allowed |= set(sem.atoms(ast.Compare(left=a.value, ops=[ast.IsNot()], comparators=[ast.Constant(None)]), True))
+                extra = facts - allowed
+                only = not extra
+            ctx.ob("C07.annex-d", fi.short(), "DISCARD", outside and se_in and pai and only,
+                   "DISCARD exactly when ego is outside, the sender's position is known and accurate (PAI) and the sender is inside "
+                   f"(F(sender) >= 0) [outside={outside}, sender-inside={se_in}, pai={pai}, further conditions={sorted(extra)}]", loc)
         elif v == "NON_AREA_FORWARDING":
             ctx.ob("C07.annex-d", fi.short(), "NON_AREA_FORWARDING", outside, "NON-AREA forwarding only when F(ego) < 0", loc)
     ctx.ob("C07.annex-d", fi.short(), "three-outcomes", seen == {"AREA_FORWARDING", "DISCARTED", "NON_AREA_FORWARDING"},
            f"outcomes returned: {sorted(seen)}", fi.loc)
     # users of the decision: no emission unless the outcome is AREA or NON-AREA
+    geo = [handlers[n] for n in ("gn_data_indicate_gbc", "gn_data_indicate_gac")]
     for uname in ("gn_data_forward_gbc", "gn_data_request_gbc"):
         u = P.func(f"{ROUTER}.{uname}")
         fl = ctx.flows.get(u)
-        sel_calls = [c for c in P.calls_in(u) if isinstance(c.func, ast.Attribute) and c.func.attr == "gn_forwarding_algorithm_selection"]
+        sel_calls = [c for c in P.calls_in(u) if any(t is fi for t in P.call_targets(u, c, count=False))]
         if not sel_calls:
             raise AnalysisError(f"C07: {uname} no longer consults the Annex D selection")
         sel_line = sel_calls[0].lineno
@@ -290,15 +447,143 @@ def annex_d(ctx, handlers):
             if not emits or c.lineno < sel_line:
                 continue
             st = fl.state_at(c)
-            conds = {norm(pretty(f.xkey)): f.pol for f in st.facts if f.kind == "cond"}
-            alg = [cname for cname, p in conds.items() if p and re.fullmatch(
-                r"self\.gn_forwarding_algorithm_selection\(.*\)==GNForwardingAlgorithmResponse\.(AREA_FORWARDING|NON_AREA_FORWARDING)", cname)]
+            alg, mentions = _selection_outcome(ctx, fi, st.facts)
             # sends that are not under the algorithm at all (SCF buffering branch) are outside this rule
-            mentions = any("gn_forwarding_algorithm_selection" in cname for cname in conds)
             if not mentions:
                 continue
-            ctx.ob("C07.annex-d", u.short(), f"emit@+{c.lineno - u.node.lineno}", bool(alg),
-                   "emission under an explicit AREA / NON-AREA outcome" if alg else
+            ok = bool(alg) and alg <= {"AREA_FORWARDING", "NON_AREA_FORWARDING"}
+            ctx.ob("C07.annex-d", u.short(), f"emit@+{c.lineno - u.node.lineno}", ok,
+                   "emission under an explicit AREA / NON-AREA outcome" if ok else
                    "a packet is emitted on a path where the Annex D outcome is only known NOT to be one value: the DISCARD "
                    "outcome falls through to forwarding", f"{u.module.rel}:{c.lineno}")
-    ctx.floor("C07.annex-d", 8)
+        # what a FORWARDER hands to the selection: the packet's own area / shape and the packet's sender
+        for h in geo:
+            if u.qual not in {f.qual for f in G.chain_of(h)}:
+                continue
+            for n_, c in enumerate(sel_calls):
+                _selection_site(ctx, h, u, fi, c, n_)
+    # handlers that forward without consulting the selection must apply the sender-inside discard themselves
+    for h in geo:
+        sinks = [s for s in G.sinks_of(ctx, h) if s.kind in ("send", "deferred-send")]
+        for n_, s in enumerate(sinks):
+            sfl = G.flow_for(ctx, s.fi, h)
+            alg, mentions = _selection_outcome(ctx, fi, sfl.state_at(s.node).facts)
+            consults = any(t is fi for c in P.calls_in(s.fi) for t in P.call_targets(s.fi, c, count=False))
+            if mentions or consults:
+                continue        # governed by the emit@ obligations above (incl. their store-carry-forward exemption)
+            ok, why = _inline_discard(ctx, h, s, sfl)
+            ctx.ob("C07.annex-d", s.fi.short(), f"{s.kind}#{n_}:discard-when-sender-inside", ok, why,
+                   f"{s.fi.module.rel}:{s.node.lineno}")
+    ctx.floor("C07.annex-d", 19)
+
+
+def _selection_site(ctx, h, u: FuncInfo, sel: FuncInfo, call: ast.Call, n: int):
+    """Arguments of gn_forwarding_algorithm_selection at a forwarder call site, in the handler's terms."""
+    P = ctx.prog
+    fl = ctx.flows.get(u, lifted=True)
+    st = fl.state_at(call)
+    amap = G.bind_args(sel, call) or {}
+    req, snd = sel.params[1], sel.params[2]
+    con, loc = u.short(), f"{u.module.rel}:{call.lineno}"
+    dec_cx = sem.cx(G.decoded_x(ctx, h))
+    # sender
+    want = sem.cx(G.source_addr_x(ctx, h))
+    got = [sem.cx(x) for x in G.to_handler_terms(ctx, h, u, fl.expand(amap[snd], st))] if snd in amap else []
+    ok = bool(got) and all(g == want for g in got)
+    ctx.ob("C07.annex-d", con, f"selection#{n}:sender", ok,
+           "the forwarder passes the packet's source address as sender" if ok else
+           f"the forwarder does not pass the packet's source address (`{want[:60]}`) as `{snd}` (passed: {got or 'nothing'}): "
+           "the sender's position stays unknown and the DISCARD outcome is unreachable", loc)
+    # request: area and shape of the received packet
+    rx = fl.expand(amap[req], st) if req in amap else None
+    area = shape = None
+    if isinstance(rx, ast.Call):
+        r = P.resolve_expr_entity(u.module, rx.func)
+        if isinstance(r, ClassInfo) and r.name == "GNDataRequest":
+            given = G.bind_ctor(r, rx) or {}
+            area = given.get("area")
+            ptt = given.get("packet_transport_type")
+            if isinstance(ptt, ast.Call):
+                r2 = P.resolve_expr_entity(u.module, ptt.func)
+                if isinstance(r2, ClassInfo) and r2.name == "PacketTransportType":
+                    shape = (G.bind_ctor(r2, ptt) or {}).get("header_subtype")
+    _area_from_packet(ctx, h, u, area, "C07.annex-d", con, f"selection#{n}:area", loc)
+    got = [x for x in G.to_handler_terms(ctx, h, u, shape)] if shape is not None else []
+    ok = bool(got) and all(isinstance(x, ast.Attribute) and x.attr == "hst" and _is_handler_param(ctx, h, x.value, "CommonHeader")
+                           for x in got)
+    ctx.ob("C07.annex-d", con, f"selection#{n}:shape", ok,
+           "the selection is run on the packet's own shape sub-type" if ok else
+           f"the shape handed to the selection is `{[pretty(unparse(x))[:50] for x in got]}`, not the received common header's HST", loc)
+
+
+def _is_handler_param(ctx, h, x: ast.AST, cls_name: str) -> bool:
+    if not (isinstance(x, ast.Name) and x.id in h.fi.params):
+        return False
+    ts = ctx.prog.param_types(h.fi).get(x.id, set())
+    return any(isinstance(t, str) and t in ctx.prog.classes and ctx.prog.classes[t].name == cls_name for t in ts)
+
+
+def _area_from_packet(ctx, h, fi: FuncInfo, area_x, rule: str, con: str, disc: str, loc: str):
+    """`area_x` (expanded in fi's terms) is Area(<every field> = <decoded header>.<same field>)."""
+    P = ctx.prog
+    dec_cx = sem.cx(G.decoded_x(ctx, h))
+    given = None
+    if isinstance(area_x, ast.Call):
+        r = P.resolve_expr_entity(fi.module, area_x.func)
+        if isinstance(r, ClassInfo) and r.name == "Area":
+            given = G.bind_ctor(r, area_x)
+            fields = G.ctor_fields(r)
+    if given is None:
+        ctx.ob(rule, con, f"{disc}", False, "the area is not built as Area(...) from the decoded header", loc)
+        return
+    for fld in fields:
+        got = [sem.cx(x) for x in G.to_handler_terms(ctx, h, fi, given[fld])] if fld in given else []
+        ok = bool(got) and all(g == f"{dec_cx}.{fld}" for g in got)
+        ctx.ob(rule, con, f"{disc}.{fld}", ok,
+               f"Area.{fld} = `{(got or ['<absent>'])[0][:70]}`; must be the packet's `{fld}` field", loc)
+
+
+def _inline_discard(ctx, h, s, fl) -> tuple:
+    """A handler that forwards without the selection function: a `return None` under exactly
+    (sender PV known, PAI, F(sender) >= 0) must lie on every path to the emission."""
+    if s.fi is not h.fi:
+        return False, "emission in a helper that neither runs under a selection outcome nor can be matched to an inline discard"
+    P = ctx.prog
+    fcs = _f_calls(ctx, h.fi, fl)
+    egos = [c for c in fcs if c.is_ego()]
+    src = {sem.cx(G.source_addr_x(ctx, h))}
+    cands = []
+    for c in fcs:
+        v = c.point_owner()
+        if c.is_ego() or v is None or not _is_table_pv_of(ctx, h.fi, fl, c.st, v, src):
+            continue
+        if not egos or any(sem.cx(c.x[i]) != sem.cx(egos[0].x[i]) for i in (0, 1)):
+            continue
+        cands.append(c)
+    if not cands:
+        return False, ("no evaluation of F(packet's shape, packet's area, sender PV) found: a GeoAnycast/GeoBroadcast packet whose "
+                       "sender is inside the area is forwarded back out (Annex D DISCARD not applied)")
+    why = "no `return None` under (sender PV accurate, F(sender) >= 0) precedes the emission"
+    for c in cands:
+        vx = fl.expand(c.point_owner(), c.st)
+        fse, pai = _nonneg_atoms(c.xcall), set(sem.atoms(_attr(vx, "pai"), True))
+        allowed = fse | pai
+        for a in (vx, vx.value if isinstance(vx, ast.Attribute) else vx):
+            allowed |= set(sem.atoms(ast.Compare(left=a, ops=[ast.IsNot()], comparators=[ast.Constant(None)]), True))
+        for k, r, st in fl.exits:
+            if k != "return" or not (r.value is None or (isinstance(r.value, ast.Constant) and r.value.value is None)):
+                continue
+            facts = _xfacts(st)
+            if not (facts & fse and facts & pai):
+                continue
+            top = _later_sibling_top(fl, r, s.node)
+            if top is None:
+                why = f"the discard at line {r.lineno} does not lie on the path to the emission"
+                continue
+            extra = facts - _xfacts(fl.state_at(top)) - allowed
+            if extra:
+                why = f"the discard at line {r.lineno} is additionally conditioned on {sorted(extra)}"
+                continue
+            return True, (f"every path to the emission passes the discard `return None` under (sender PV accurate, "
+                          f"F(sender) >= 0) at line {r.lineno}")
+    return False, why + ": a packet whose sender is inside the area is forwarded although Annex D demands DISCARD"
